@@ -63,7 +63,8 @@ SPECS = {
         rule="generated non-nested Parallel/Map programs in which (by the reference model) one, several or all "
              "branches/iterations fail and the fan-out state itself has no Retry/Catch (branch-level Retry/Catch "
              "allowed), plus 6 hand-written nested fan-out failure scenarios under every schedule policy and a fixed probe for "
-             "the recorded handled-failure finding; failure instant placed by the seeded schedule relative to sibling events, "
+             "the recorded handled-failure finding, and a slice in which the branch fails shortly before the execution deadline "
+             "while a sibling's next event is still in flight and arrives after it; failure instant placed by the seeded schedule relative to sibling events, "
              "replies and timers; oracles: the execution fails with the failing branch's error, exactly one terminal "
              "notification, no state of the failed fan-out is entered and no task request is issued for it after the "
              "failure, nothing is appended to the history after the terminal event, nothing stays unacknowledged and "
@@ -236,6 +237,8 @@ def run_one(item, extra):
             return run_hand(prop, item[1])
         if kind == "caught":
             return run_caught(prop, item[1])
+        if kind == "near-deadline":
+            return run_near_deadline(prop, item[1])
         if kind == "nested":
             from gen import corpus
             cfg = E.policy_cfg(item[2])
@@ -388,6 +391,43 @@ def run_caught(prop, i):
     return check(prop, scn, seed, extra_probes={"error-caught-inside-an-iteration": 1}, judge_all=True)
 
 
+def near_deadline_scenario(i):
+    """A branch fails shortly before the execution deadline while a sibling's next-state event is in flight and only
+    arrives after the deadline (every hop takes 0.1 s): that event belongs to a terminated branch and must be dropped,
+    not processed as an execution time-out of its own."""
+    seed = common.run_seed(8400000 + i)
+    rng = random.Random(seed)
+    fn_arn = E.GM.FN_ARN
+    T = rng.choice([3, 5])
+    # every hop takes 0.1 s: the StartExecution answer fixes StartTime at 0.1, so the deadline is at T + 0.1; the sibling's
+    # chain of Pass states is handled at T - 0.87 + phase + 0.1 k; the failure is handled at 0.4 + delay
+    phase = rng.choice([0.0, 0.02, 0.03, 0.05, 0.07])
+    w = round(T - 1.2 + phase, 3)
+    n = rng.randint(10, 14)
+    chain = {"W": {"Type": "Wait", "SecondsPath": "$.w", "Next": "P0"}}
+    for k in range(n):
+        chain["P%d" % k] = {"Type": "Pass", "Next": "P%d" % (k + 1)} if k < n - 1 else {"Type": "Pass", "End": True}
+    sib = {"StartAt": "W", "States": chain}
+    bad = {"StartAt": "B", "States": {"B": {"Type": "Task", "Resource": fn_arn + "bad", "End": True}}}
+    fan = {"Type": "Parallel", "Branches": [bad, sib] if rng.random() < 0.5 else [sib, bad], "End": True}
+    if rng.random() < 0.4:
+        fan["Catch"] = [{"ErrorEquals": ["E.Alpha"], "ResultPath": "$.err", "Next": "H"}]
+    d = {"TimeoutSeconds": T, "StartAt": "F", "States": {"F": fan, "H": {"Type": "Pass", "End": True}}}
+    # failure a little after one of the chain's events around the deadline was published (so that event is in flight)
+    fail_at = round(T + phase + rng.choice([-0.27, -0.17, -0.07, -0.06, 0.03, 0.04, 0.06]) + rng.choice([0.0, 0.005]), 3)
+    script = {"bad": [{"err": "E.Alpha", "msg": "no", "delay": max(0.0, round(fail_at - 0.4, 3))}]}
+    cfg = {"policy": "latency", "latency": {"pub": ("fixed", 0.1), "reply": ("fixed", 0.1)}, "execution_ttl": 600}
+    scn = {"machines": {"m0": {"definition": d, "type": rng.choice(["STANDARD", "EXPRESS"]), "family": "near-deadline"}},
+           "executions": [{"machine": "m0", "input": {"k": 1, "w": w}, "name": "e0"}],
+           "script": script, "functions": ["bad"], "config": cfg}
+    return seed, scn
+
+
+def run_near_deadline(prop, i):
+    seed, scn = near_deadline_scenario(i)
+    return check(prop, scn, seed, extra_probes={"branch-failure-near-the-execution-deadline": 1}, judge_all=True)
+
+
 def run_loop(prop, i):
     seed, scn = loop_scenario(i)
     return check(prop, scn, seed, extra_probes={"fan-out-re-entered-in-a-loop": 1}, judge_all=True)
@@ -431,7 +471,7 @@ def main_for(prop, argv, extra_items=()):
         from gen import corpus
         reps = 4 if tier == "quick" else 60
         items = [("nested", nm, pol, 100 + k) for nm in sorted(corpus.NESTED) for pol in ALL_POLICIES
-                 for k in range(reps)] + items
+                 for k in range(reps)] + [("near-deadline", j) for j in range(150 if tier == "quick" else 6000)] + items
     extra_cov = {}
     if prop == "C09":
         items = [("hand", j) for j in range(300 if tier == "quick" else 12000)] + items
